@@ -995,6 +995,154 @@ def render_sections():
     return "\n".join(out)
 
 
+# --------------------------------------------------------------------------- FactoryPool (C15)
+REL_FACTORY = os.path.join("CobaldVerif", "Generated", "SrcFactory.lean")
+FCHILD = {"supply": "supply", "utilisation": "util", "allocation": "alloc", "demand": "demand"}
+
+
+def fexpr(node, env):
+    """arithmetic / comparisons over one child's attributes and local rationals"""
+    if isinstance(node, ast.Name) and node.id in env:
+        return env[node.id]
+    if isinstance(node, ast.Attribute) and isinstance(node.value, ast.Name) and node.value.id in env and node.attr in FCHILD:
+        return "%s.%s" % (env[node.value.id], FCHILD[node.attr])
+    if isinstance(node, ast.Constant) and isinstance(node.value, (int, float)) and not isinstance(node.value, bool) and node.value == int(node.value):
+        return "(%d : Rat)" % int(node.value)
+    if isinstance(node, ast.BinOp):
+        op = {ast.Add: "+", ast.Sub: "-", ast.Mult: "*"}.get(type(node.op))
+        if op:
+            return "(%s %s %s)" % (fexpr(node.left, env), op, fexpr(node.right, env))
+    if isinstance(node, ast.Compare) and len(node.ops) == 1:
+        a, b = fexpr(node.left, env), fexpr(node.comparators[0], env)
+        c = {ast.Lt: "%s < %s" % (a, b), ast.Gt: "%s < %s" % (b, a), ast.LtE: "%s ≤ %s" % (a, b), ast.GtE: "%s ≤ %s" % (b, a)}.get(type(node.ops[0]))
+        if c:
+            return c
+    raise Untranslatable(ast.unparse(node)[:80])
+
+
+class FactoryTr:
+    def __init__(self):
+        from cobald.composite.factory import FactoryPool
+        self.cls = FactoryPool
+
+    def shrink_key(self):
+        st = _fn_body(self.cls._shrink)
+        a = st[0]
+        if not (isinstance(a, ast.Assign) and ast.unparse(a.targets[0]) == "hit_list" and isinstance(a.value, ast.Call)
+                and ast.unparse(a.value.func) == "sorted" and [ast.unparse(x) for x in a.value.args] == ["self._hatchery"]
+                and len(a.value.keywords) == 1 and a.value.keywords[0].arg == "key" and isinstance(a.value.keywords[0].value, ast.Lambda)):
+            raise Untranslatable("hit list: %s" % ast.unparse(a)[:80])
+        lam = a.value.keywords[0].value
+        v = lam.args.args[0].arg
+        return fexpr(lam.body, {v: "c"})
+
+    def shrink_excess(self):
+        st = _fn_body(self.cls._shrink)
+        if len(st) != 4 or _nz(ast.unparse(st[1])) != _nz("excess_demand = sum((child.demand for child in hit_list)) - target") \
+                or ast.unparse(st[3]) != "self._reap_children()":
+            raise Untranslatable("_shrink: %s" % [ast.unparse(x)[:40] for x in st])
+        return "sumD hit - target"
+
+    def shrink_pass(self):
+        st = _fn_body(self.cls._shrink)
+        lp = st[2]
+        if not (isinstance(lp, ast.For) and ast.unparse(lp.target) == "child" and ast.unparse(lp.iter) == "hit_list" and not lp.orelse and len(lp.body) == 2):
+            raise Untranslatable("release loop: %s" % ast.unparse(lp)[:60])
+        brk, rel = lp.body
+        if not (isinstance(brk, ast.If) and not brk.orelse and [ast.unparse(x) for x in brk.body] == ["break"]):
+            raise Untranslatable("loop exit: %s" % ast.unparse(brk)[:60])
+        env = {"excess_demand": "excess", "child": "child"}
+        stop = fexpr(brk.test, env)
+        if not (isinstance(rel, ast.If) and not rel.orelse and len(rel.body) == 2 and isinstance(rel.body[0], ast.AugAssign)
+                and ast.unparse(rel.body[0].target) == "excess_demand" and isinstance(rel.body[0].op, ast.Sub)
+                and ast.unparse(rel.body[1]) == "self._release_child(child)"):
+            raise Untranslatable("release step: %s" % ast.unparse(rel)[:80])
+        take = fexpr(rel.test, env)
+        less = fexpr(rel.body[0].value, env)
+        return ("if %s then st\n    else if %s then shrinkPass (release st child.id) (excess - %s) rest\n    else shrinkPass st excess rest" % (stop, take, less))
+
+    def grow(self):
+        st = _fn_body(self.cls._grow)
+        if len(st) != 3 or _nz(ast.unparse(st[0])) != _nz("missing_demand = target - sum((child.demand for child in self.children))") \
+                or ast.unparse(st[2]) != "self._reap_children()" or not isinstance(st[1], ast.While):
+            raise Untranslatable("_grow: %s" % [ast.unparse(x)[:40] for x in st])
+        lp = st[1]
+        body_ = [ast.unparse(x) for x in lp.body]
+        if len(body_) != 4 or body_[0] != "new_child = self.factory()" or body_[1] != "self._hatchery.add(new_child)" \
+                or not body_[2].startswith("assert new_child.demand > 0") or body_[3] != "missing_demand -= new_child.demand":
+            raise Untranslatable("spawn loop: %s" % body_)
+        cond = fexpr(lp.test, {"missing_demand": "missing"})
+        # the model's loop is written with the negated condition first
+        return cond
+
+    def reap_cond(self):
+        st = _fn_body(self.cls._reap_children)
+        if len(st) != 1 or not isinstance(st[0], ast.For) or ast.unparse(st[0].iter) != "list(self._hatchery)" or len(st[0].body) != 1:
+            raise Untranslatable("_reap_children: %s" % [ast.unparse(x)[:60] for x in st])
+        br = st[0].body[0]
+        if not (isinstance(br, ast.If) and not br.orelse and [ast.unparse(x) for x in br.body] == ["self._release_child(%s)" % ast.unparse(st[0].target)]):
+            raise Untranslatable("reap step: %s" % ast.unparse(br)[:60])
+        return "decide (%s)" % fexpr(br.test, {ast.unparse(st[0].target): "c"})
+
+    def release_shape(self):
+        src = [ast.unparse(x) for x in _fn_body(self.cls._release_child)]
+        if src != ["child.demand = 0", "self._hatchery.discard(child)", "self._mortuary.add(child)"]:
+            raise Untranslatable("_release_child: %s" % src)
+        ch = [ast.unparse(x) for x in _fn_body(inspect.getattr_static(self.cls, "children").fget)]
+        if ch != ["return [*self._hatchery, *self._mortuary]"]:
+            raise Untranslatable("children: %s" % ch)
+        d = inspect.getattr_static(self.cls, "demand")
+        if [ast.unparse(x) for x in _fn_body(d.fget)] != ["return self._demand"] or [ast.unparse(x) for x in _fn_body(d.fset)] != ["self._demand = value"]:
+            raise Untranslatable("demand property")
+        return "true"
+
+    def fitness(self, name):
+        st = _fn_body(inspect.getattr_static(self.cls, name).fget)
+        if len(st) != 2 or _nz(ast.unparse(st[0])) != _nz("active_children = [child for child in self.children if child.supply > 0]") or not isinstance(st[1], ast.Try):
+            raise Untranslatable("%s: %s" % (name, [ast.unparse(x)[:50] for x in st]))
+        tr = st[1]
+        want = "return sum((child.%s for child in active_children)) / len(active_children)" % name
+        if [_nz(ast.unparse(x)) for x in tr.body] != [_nz(want)] or len(tr.handlers) != 1 or ast.unparse(tr.handlers[0].type) != "ZeroDivisionError":
+            raise Untranslatable("%s mean: %s" % (name, [ast.unparse(x)[:70] for x in tr.body]))
+        fb = tr.handlers[0].body
+        if len(fb) != 1 or not isinstance(fb[0], ast.Return):
+            raise Untranslatable("%s fallback" % name)
+        return ("let active := st.all.filter (fun child => decide ((0 : Rat) < child.supply))\n  if (active.length : Rat) = 0 then %s else (active.map (fun child => child.%s)).sum / (active.length : Rat)"
+                % (fexpr(fb[0].value, {}), FCHILD[name]))
+
+    def supply(self):
+        st = _fn_body(inspect.getattr_static(self.cls, "supply").fget)
+        if [_nz(ast.unparse(x)) for x in st] != [_nz("return sum((child.supply for child in self.children))")]:
+            raise Untranslatable("supply")
+        return "(st.all.map (fun child => child.supply)).sum"
+
+
+def render_factory():
+    out = ["/- GENERATED by harness/vh/translate.py from the source text of /repo (cobald/composite/factory.py)",
+           "   — do not edit.  Regenerated on every run of the C15 / C09 checks. -/",
+           "import CobaldVerif.Model.Factory", "", "namespace Cobald.Gen.Factory", "open Cobald Cobald.Factory", ""]
+
+    def emit(name, sig, typ, thunk, fmt="def %s %s : %s :=\n  %s\n"):
+        try:
+            out.append(fmt % (name, sig, typ, thunk()))
+        except Untranslatable as e:
+            out.append("-- untranslatable (%s)\ndef %sUntranslatable : String := \"source outside the translated subset\"\n"
+                       % (str(e)[:100].replace("\n", " "), name))
+    tr = FactoryTr()
+    emit("shrinkKey", "(c : Child)", "Rat", tr.shrink_key)
+    emit("shrinkExcess", "(hit : List Child) (target : Rat)", "Rat", tr.shrink_excess)
+    emit("shrinkPass", "", "St → Rat → List Child → St", tr.shrink_pass,
+         fmt="def %s %s : %s\n  | st, _, [] => st\n  | st, excess, child :: rest =>\n    %s\n")
+    emit("growContinues", "(missing : Rat)", "Prop", tr.grow)
+    emit("reapCond", "(c : Child)", "Bool", tr.reap_cond)
+    emit("releaseShape", "", "Bool", tr.release_shape)
+    emit("supply", "(st : St)", "Rat", tr.supply)
+    emit("utilisation", "(st : St)", "Rat", lambda: tr.fitness("utilisation"))
+    emit("allocation", "(st : St)", "Rat", lambda: tr.fitness("allocation"))
+    out += ["end Cobald.Gen.Factory", ""]
+    return "\n".join(out)
+
+
 def regenerate():
     """returns True if the generated text changed"""
     a = lean.write_generated(REL, render())
@@ -1003,4 +1151,5 @@ def regenerate():
     d = lean.write_generated(REL_STANDARDISER, render_standardiser())
     e = lean.write_generated(REL_DECORATORS, render_decorators())
     f = lean.write_generated(REL_SECTIONS, render_sections())
-    return a or b or c or d or e or f
+    g = lean.write_generated(REL_FACTORY, render_factory())
+    return a or b or c or d or e or f or g
